@@ -532,7 +532,7 @@ def install(eng, check_tags=None):
     def loop_time(eng_, st, recv, args, kwargs):
         return ok(st, st.heap[st.ghost_oid].f["now"])
 
-    objid_f = z3.Function("objid", ObjS, IntS)
+    objid_f = heapmodel.objid_f
     _ids = [0]
 
     def new_obj(st, base, kind):
